@@ -19,6 +19,7 @@ Item directives
       //@closure <<<|params|>>> => <<<|typed params| -> (o: T) ensures E>>>   wrap the closure body in a block
       //@invariant <n>      raw lines until //@endinvariant: loop invariant for the n-th loop of the body
       //@afterloop <n> <<<ghost stmt>>>   inserted right after the n-th loop of the body (insert-only)
+      //@loopstart <n> <<<ghost stmt>>>   inserted as the first statement of the n-th loop's body (insert-only)
   //@end
 
 Automatic rewrite rules, applied to every extracted body and logged:
@@ -474,6 +475,7 @@ def expand(template_path, std=True):
             closures = []
             invariants = {}
             afterloops = {}
+            loopstarts = {}
             panic_args = {}
             prepends = []
             appends = []
@@ -517,6 +519,9 @@ def expand(template_path, std=True):
                 elif t.startswith("//@afterloop "):
                     mm = re.match(r"//@afterloop (\d+) <<<(.*)>>>\s*$", t)
                     afterloops[int(mm.group(1))] = mm.group(2)
+                elif t.startswith("//@loopstart "):
+                    mm = re.match(r"//@loopstart (\d+) <<<(.*)>>>\s*$", t)
+                    loopstarts[int(mm.group(1))] = mm.group(2)
                 elif t.startswith("//@invariant "):
                     k = int(t.split()[1])
                     inv = []
@@ -662,6 +667,9 @@ def expand(template_path, std=True):
                 if clet:
                     g.log.rule("Rclosure: a closure parameter pattern becomes a variable + `let <pattern> = <variable>;` (Verus closures take variables only)")
                 g.log.rule("Rclosure: closure given typed parameters and an `ensures`; its body text is unchanged")
+            if loopstarts:
+                body = splice_afterloops(body, loopstarts, name, at_start=True)
+                g.log.rule("Rannot: insert-only annotation (ghost iterator name / ghost statement); code text unchanged")
             if afterloops:
                 body = splice_afterloops(body, afterloops, name)
                 g.log.rule("Rannot: insert-only annotation (ghost iterator name / ghost statement); code text unchanged")
@@ -710,7 +718,7 @@ def check_loops_annotated(body, name):
         i = m.end()
 
 
-def splice_afterloops(body, afterloops, name):
+def splice_afterloops(body, afterloops, name, at_start=False):
     """Insert a ghost statement right after the closing brace of the n-th loop (1-based, textual order).  Keyed by the loop's
     ordinal, not by the text of the statement that follows it, so that harmless edits of that statement do not lose the anchor."""
     i = 1
@@ -722,7 +730,7 @@ def splice_afterloops(body, afterloops, name):
             break
         k += 1
         ob = first_brace_at_depth0(body, m.end())
-        ends[k] = match_close(body, ob, "{", "}")
+        ends[k] = ob if at_start else match_close(body, ob, "{", "}")
         i = m.end()
     missing = [n for n in afterloops if n not in ends]
     if missing:
